@@ -46,6 +46,10 @@ class World(SimWorld):
     def client_of(self, strat):
         return self.lab.clients[strat.sspec.get("client", 0)]
 
+    def owner_of(self, order):
+        # the client the order was accepted through: its strategy's, unless it was routed through another one
+        return self.owner_override.get(id(order)) or self.client_of(order.trade.strategy)
+
     def feed(self, step):
         # instructions of a replace package = its orders that are not complete when it is executed (orders that
         # completed while the request was in flight are not sent): statuses just before the update that executes it
@@ -60,7 +64,7 @@ class World(SimWorld):
         tot = 0
         for p in self.lab.packages:
             # the client an order belongs to is the one its strategy trades through (not whatever the order object says)
-            owner = self.client_of(p._orders[0].trade.strategy) if p._orders else p.client
+            owner = self.owner_of(p._orders[0]) if p._orders else p.client
             if owner is not client or any(p is q for q in queue):
                 continue
             k = p.package_type.name
@@ -69,7 +73,7 @@ class World(SimWorld):
             elif k == "REPLACE":
                 tot += self.replace_live.get(id(p), len(p._orders))
         for o in self.shadow_orders:
-            if self.client_of(o.trade.strategy) is client:
+            if self.owner_of(o) is client:
                 tot += sum(1 for r in o.responses.cancel_responses if r.status == "FAILURE")
                 tot += sum(1 for r in o.responses.update_responses if r.status == "FAILURE")
         return tot
@@ -77,7 +81,12 @@ class World(SimWorld):
     def check_tx_decision(self, rec):
         order = rec["order"]
         strat = order.trade.strategy
-        client = self.client_of(strat)
+        if rec["res"].error and "does not match transaction client" in rec["res"].error:
+            # (an order routed through another client, addressed in a transaction of the strategy's usual client:
+            #  rejected with an error before any control is consulted)
+            self.classes.add("request-in-another-clients-transaction")
+            return
+        client = rec.get("via_client") or self.owner_of(order)
         m = self.model[client.username]
         now = dt.datetime.utcnow()
         status = self.market.market_book.status
@@ -149,7 +158,7 @@ def make():
     from ..machine import make_machine
     from .. import gen
 
-    Base = make_machine(World, CHECKS, cfg(), {"remove": 0, "close": 0, "inplay": 0, "place_existing": 0, "txn": 2, "book": 3, "bulk": 1, "cancel_batch": 1})
+    Base = make_machine(World, CHECKS, cfg(), {"remove": 0, "close": 0, "inplay": 0, "place_existing": 0, "txn": 2, "book": 3, "bulk": 1, "cancel_batch": 1, "resubmit": 2})  # resubmit: an order refused by a control is submitted again
 
     from hypothesis.stateful import rule
 
